@@ -1172,6 +1172,7 @@ def run_c03(ctx):
     compat_twins_stream(ctx, 60 if q else 1500)
     erroring_comparison_stream(ctx, 60 if q else 1500)
     nonfinite_entry_stream(ctx, 80 if q else 2000)
+    exact_mesh_tolerance_stream(ctx, 60 if q else 1500)
     run_stage_batch(ctx, stage_batch)
     run_ladder_batch(ctx, ladder_batch)
     ctx.rule = ("meshes as in C02 with exactly one single-site modification on one side (move a point along one axis by 16..1e6 "
@@ -1263,10 +1264,12 @@ def nonfinite_entry_stream(ctx, n):
         base = np.array([float(rng.randint(-64, 64)) / 8 for _ in range(npts)]) if where == "scalar" else \
             np.array([[float(rng.randint(-64, 64)) / 8 for _ in range(3)] for _ in range(npts)])
         other = base.copy()
-        kind = rng.choice(["finite_vs_inf", "finite_vs_inf", "finite_vs_minus_inf", "inf_vs_minus_inf"])
+        kind = rng.choice(["finite_vs_inf", "finite_vs_inf", "finite_vs_minus_inf", "inf_vs_minus_inf", "finite_vs_nan", "finite_vs_nan"])
         idx = (i,) if where == "scalar" else (i, rng.randrange(3))
         if kind == "inf_vs_minus_inf":
             base[idx], other[idx] = np.inf, -np.inf
+        elif kind == "finite_vs_nan":
+            other[idx] = np.nan          # an undefined value on one side is a deviation, too
         else:
             other[idx] = np.inf if kind == "finite_vs_inf" else -np.inf
         pred = rng.choice(["default", "default_rel", "fuzzy_rel", "fuzzy_abs", "huge_rel"])
@@ -1299,7 +1302,48 @@ def nonfinite_entry_stream(ctx, n):
         ctx.case(canon, True, sample={"case": {k: canon[k] for k in ("how", "field", "predicate", "role", "reordered")}, "impl": res})
         ctx.count(f"c03:nonfinite entry:{kind}:{pred}")
         if res["bool"]:
-            ctx.violation("E4", f"comparison PASSES although one entry of a field is infinite on one side ({kind}, predicate {pred})",
+            ctx.violation("E4", f"comparison PASSES although one entry of a field is infinite / undefined on one side ({kind}, predicate {pred})",
+                          canon, impl=res)
+        ctx.traces_validated += 1
+
+
+def exact_mesh_tolerance_stream(ctx, n):
+    """the user asks for an EXACT domain check (set_tolerances(abs_tol=0, rel_tol=0) on both meshes): a coordinate moved by a
+    relative 2^-30 (below the default 1e-8) must make the comparison fail, as stored and reordered, in both roles; the unmoved
+    pair passes"""
+    rng = ctx.rng
+    for it in range(n):
+        M = G.add_fields(rng, G.gen_mesh(rng, max_cells=4), kinds=("scalar",))
+        used = sorted({c for _, rows in M["blocks"] for r in rows for c in r})
+        cand = [(i, d) for i in used for d in range(M["dim"]) if M["pts"][i][d] != 0]
+        if not cand or G.has_coincident_points(M):
+            continue
+        i, d = rng.choice(cand)
+        moved = rng.random() < 0.7
+        N = G.copy_mesh(M)
+        if moved:
+            N["pts"][i][d] = M["pts"][i][d] * (1 + Fr(1, 2 ** 30))
+        reorder = rng.random() < 0.5
+        Nr = G.relabel(rng, N)[0] if reorder else N
+        role = rng.choice(["mod_is_source", "mod_is_reference"])
+        canon = {"kind": "exact_mesh_tolerances", "mesh": json_mesh(M), "moved": [i, d] if moved else None, "reordered": reorder, "role": role}
+        try:
+            with quiet():
+                warnings.simplefilter("ignore")
+                fa, fb = G.to_fieldcompare(M), G.to_fieldcompare(Nr)
+                for f in (fa, fb):
+                    f.domain.set_tolerances(abs_tol=0.0, rel_tol=0.0)
+                A, B = (fb, fa) if role == "mod_is_source" else (fa, fb)
+                res = compare_impl(A, B)
+        except Exception as e:  # noqa: BLE001
+            if "duplicate" in str(e):
+                continue
+            ctx.violation("E4", f"comparison with exact mesh tolerances raised {type(e).__name__}: {e}", canon)
+            continue
+        ctx.case(canon, moved, sample={"case": {k: canon[k] for k in ("moved", "reordered", "role")}, "impl": res})
+        ctx.count(f"c03:exact mesh tolerances:{'moved' if moved else 'same'}")
+        if res["bool"] == moved:
+            ctx.violation("E4", f"meshes with tolerances set to exactly zero: comparison {'PASSES although a coordinate differs by 2^-30 relative' if moved else 'fails for identical coordinates'}",
                           canon, impl=res)
         ctx.traces_validated += 1
 
